@@ -40,6 +40,8 @@ def check(ctx: Ctx, col: Collector, tier: str) -> None:
     col.spec("C01.FS-TOLERANT", "writing the outputs cannot fail on an existing output directory, on non-ASCII text or on a special float: directories are created with "
              "parents=True / exist_ok=True, files are opened for writing in w/a mode with an explicit UTF-8 encoding, JSON serialisation is not put in a strict mode",
              "inventory of mkdir / touch / open / json.dump call sites and their keyword constants", floor=9)
+    col.spec("C01.PATH-ARITH", "path values are derived with pathlib operations only, so that relative_to() between a derived path and its base cannot fail",
+             "inventory of relative_to() call sites and of paths re-assembled from their parts", floor=1)
     col.spec("C01.IMPORT-SOURCE", "every named type the analyser builds has a non-empty qualified name, so the stub generator's import bookkeeping cannot reject it",
              "inventory of NamedType / NamedSequenceType constructor calls; constant, guarded or library-guaranteed qname argument", floor=25)
     col.spec("C01.TERM", "the run terminates: loops have a variant, recursion descends", "syntactic variant of every while loop; structural descent of self-recursive calls", floor=50)
@@ -107,6 +109,43 @@ def check(ctx: Ctx, col: Collector, tier: str) -> None:
                     col.ok("C01.LIBAPI", key, repo.loc(DOCPARSER, n), f"the documented failures {doc_raises} of griffe's load() are handled ({sorted(caught)})")
     if nload != 1:
         raise AnalysisError(f"{nload} calls of griffe's load() found in the docstring parser, 1 expected")
+    # attribute chains on receivers mypy cannot type (values narrowed with hasattr/getattr are Any): the library model says which attributes of
+    # mypy's node classes are declared Optional; dereferencing such an attribute needs a guard that mypy's own diagnostics cannot ask for
+    opt_attrs = {a for c in ctx.lib.classes.values() for a, ann in c.attrs.items() if ann and "None" in ann} & {"type", "node", "info", "impl", "analyzed", "expr", "alias_node", "def_var"}
+    for rel, mi in repo.modules.items():
+        if not rel.startswith("api_analyzer/"):
+            continue
+        for fi in mi.functions.values():
+            la = None
+            for x in ast.walk(fi.node):
+                if not (isinstance(x, ast.Attribute) and isinstance(x.value, ast.Attribute) and x.value.attr in opt_attrs):
+                    continue
+                t = mf.type_of(rel, x.value)
+                if t not in (None, "Any"):
+                    continue
+                la = la or Lengths(repo, mi, fi, mf)
+                recv = ast.unparse(x.value)
+                owner = ast.unparse(x.value.value)
+                guard = None
+                for cond, truth, line in la.dominating(x):
+                    for c in ast.walk(cond):
+                        ct = ast.unparse(c)
+                        if truth and ct in (f"{recv} is not None", f"getattr({owner}, '{x.value.attr}', None) is not None", recv):
+                            guard = f"`{ct}` (line {line})"
+                        if truth and isinstance(c, ast.Call) and getattr(c.func, "id", "") == "isinstance" and c.args and ast.unparse(c.args[0]) == recv:
+                            guard = f"`{ct[:50]}` (line {line})"
+                        if truth and isinstance(c, ast.Call) and getattr(c.func, "id", "") == "getattr" and len(c.args) == 3 and ast.unparse(c.args[0]) == recv \
+                                and isinstance(c.args[2], ast.Constant) and not c.args[2].value:
+                            guard = f"`{ct[:50]}` is truthy, so {recv} is an object (line {line})"
+                        if not truth and ct in (f"{recv} is None", f"not {recv}"):
+                            guard = f"failure of `{ct}` (line {line})"
+                key = f"{rel}::{fi.qualname}::optional-attribute::{ast.unparse(x)[:60]}"
+                if guard:
+                    col.ok("C01.LIBAPI", key, repo.loc(rel, x), f"`{recv}` (declared Optional in mypy's node classes, untyped here) is guarded by {guard}")
+                else:
+                    col.bad("C01.LIBAPI", key, repo.loc(rel, x), f"`{ast.unparse(x)[:70]}`: `{recv}` is untyped here; mypy declares `{x.value.attr}` Optional ({sorted(c.name for c in ctx.lib.classes.values() if 'None' in (c.attrs.get(x.value.attr) or ''))[:3]})",
+                            f"{fi.qualname}: `{ast.unparse(x)[:60]}` reads `.{x.attr}` of `{recv}`, which mypy leaves None in some trees (e.g. Var.type of the receiver in a method mypy does not analyse: "
+                            f"`def __enter__(self): return self` after a module-level platform guard or below @no_type_check) - AttributeError: 'NoneType' object has no attribute '{x.attr}'")
     col.ok("C01.LIBAPI", "package::mypy-diagnostics", "src/safeds_stubgen", f"mypy reports {len(mf.errors)} diagnostics in total, {len(errs)} in repository files with codes {sorted(LIB_CODES)}", nontrivial=True)
 
     # ------------------------------------------------------------------ DISPATCH
@@ -401,6 +440,28 @@ def check(ctx: Ctx, col: Collector, tier: str) -> None:
         (col.ok if not rs and pops == {1} else col.bad)("C01.STACK", key, repo.loc(VISITOR, lfi2.node), f"pops exactly the element its enter handler pushed (raises {rs}, pops {sorted(pops)})",
                                                         *([] if not rs and pops == {1} else [f"leave_{kind} raises or does not pop exactly once for the element enter_{kind} pushed"]))
 
+    # the walker decides twice whether a class is an enum: which handlers it calls (__get_callbacks) and which children it visits (__walk).
+    # A class that is an enum for one and not for the other gets its methods walked below an Enum object, which enter_funcdef rejects.
+    wm = repo.module(WALKER)
+    gcf = wm.functions.get("ASTWalker.__get_callbacks")
+    wkf = wm.functions.get("ASTWalker.__walk")
+    if gcf is None or wkf is None:
+        raise AnalysisError("walker anchors __get_callbacks / __walk vanished")
+
+    def conjuncts(e: ast.expr) -> list[str]:
+        parts = e.values if isinstance(e, ast.BoolOp) and isinstance(e.op, ast.And) else [e]
+        return sorted(ast.unparse(x) for x in parts if not (isinstance(x, ast.Call) and getattr(x.func, "id", "") == "isinstance" and "ClassDef" in ast.unparse(x)))
+    disp = [n.test for n in ast.walk(gcf.node) if isinstance(n, ast.If) and any(isinstance(x, ast.Assign) and isinstance(x.value, ast.Constant) and x.value.value == "enumdef" for x in n.body)]
+    restr = [n.test for n in ast.walk(wkf.node) if isinstance(n, (ast.IfExp, ast.If)) and isinstance(getattr(n, "body", None), (ast.Set, list))
+             and "AssignmentStmt" in ast.unparse(n.body if isinstance(n, ast.IfExp) else n.body[0]) and "FuncDef" not in ast.unparse(n.body if isinstance(n, ast.IfExp) else n.body[0])]
+    if len(disp) != 1 or len(restr) != 1:
+        raise AnalysisError(f"enum decisions of the walker not found (dispatch {len(disp)}, child restriction {len(restr)})")
+    same = conjuncts(disp[0]) == conjuncts(restr[0])
+    (col.ok if same else col.bad)("C01.STACK", f"{WALKER}::ASTWalker::enum-decision-agreement", repo.loc(WALKER, disp[0]),
+                                  f"handlers and child selection use the same test {conjuncts(disp[0])}" if same else f"handlers: {conjuncts(disp[0])}; children: {conjuncts(restr[0])}",
+                                  *([] if same else [f"the walker selects the enum handlers under `{ast.unparse(disp[0])[:70]}` but restricts the children of a class to assignments under `{ast.unparse(restr[0])[:50]}`: "
+                                                     f"a class that is an enum for the first test only (e.g. `class Color(LabelledEnum)` with a method) has its methods visited below an Enum, for which enter_funcdef raises"]))
+
     # ------------------------------------------------------------------ TABLE
     produced: dict[str, list[str]] = {}
     for rel in (VISITOR, HELPERS, DOCPARSER, GEN, GETAPI):
@@ -609,6 +670,48 @@ def check(ctx: Ctx, col: Collector, tier: str) -> None:
                                                   *([] if good else [f"{fi.qualname}: `{ast.unparse(n)[:70]}` puts the serialiser in a strict / custom mode ({strict}): a model value such as a default of "
                                                                      f"1e999 (inf) makes it raise after the file was opened"]))
 
+    # ------------------------------------------------------------------ PATH-ARITH
+    npa = 0
+    for rel, mi in repo.modules.items():
+        for fi in mi.functions.values():
+            rejoined: dict[str, ast.AST] = {}
+            for n in ast.walk(fi.node):
+                # Path("/".join(p.parts[...])): for an absolute path parts[0] is "/", the join starts with "//", which pathlib keeps as another root
+                if isinstance(n, ast.Call) and isinstance(n.func, ast.Attribute) and n.func.attr == "join" and isinstance(n.func.value, ast.Constant) and n.func.value.value in ("/", "\\") \
+                        and n.args and any(isinstance(x, ast.Attribute) and x.attr == "parts" for x in ast.walk(n.args[0])):
+                    tgt = repo.parent(n)
+                    while tgt is not None and not isinstance(tgt, (ast.Assign, ast.AnnAssign)) and tgt is not fi.node:
+                        tgt = repo.parent(tgt)
+                    if isinstance(tgt, ast.Assign) and len(tgt.targets) == 1 and isinstance(tgt.targets[0], ast.Name):
+                        rejoined[tgt.targets[0].id] = n
+                    else:
+                        rejoined[f"<expr:{n.lineno}>"] = n
+            # names derived from a re-joined path
+            changed = True
+            while changed:
+                changed = False
+                for n in ast.walk(fi.node):
+                    if isinstance(n, ast.Assign) and len(n.targets) == 1 and isinstance(n.targets[0], ast.Name) and n.targets[0].id not in rejoined \
+                            and any(isinstance(x, ast.Name) and x.id in rejoined for x in ast.walk(n.value)):
+                        rejoined[n.targets[0].id] = rejoined[next(x.id for x in ast.walk(n.value) if isinstance(x, ast.Name) and x.id in rejoined)]
+                        changed = True
+            for n in ast.walk(fi.node):
+                if isinstance(n, ast.Call) and isinstance(n.func, ast.Attribute) and n.func.attr == "relative_to":
+                    npa += 1
+                    col.touched(fi)
+                    roots = [x.id for x in ast.walk(n.func.value) if isinstance(x, ast.Name) and x.id in rejoined]
+                    key = f"{rel}::{fi.qualname}::relative_to::{ast.unparse(n)[:50]}"
+                    if roots:
+                        src = rejoined[roots[0]]
+                        col.bad("C01.PATH-ARITH", key, repo.loc(rel, n), f"`{roots[0]}` comes from `{ast.unparse(src)[:60]}` (line {src.lineno})",
+                                f"{fi.qualname}: `{ast.unparse(n)[:60]}` raises ValueError for a path re-assembled with `{ast.unparse(src)[:50]}`: the parts of an absolute path start with '/', "
+                                f"the join starts with '//', and pathlib treats '//x' as a different root than '/x' (a class or function re-exported by an __init__.py and named like that package, "
+                                f"`textlib/__init__.py: from .core import textlib`, aborts the run after the API file was written)")
+                    else:
+                        col.ok("C01.PATH-ARITH", key, repo.loc(rel, n), "the receiver is derived with pathlib operations only")
+    if npa < 1:
+        raise AnalysisError("no relative_to() call site found")
+
     # ------------------------------------------------------------------ IMPORT-SOURCE
     nq = 0
     qseen: dict[str, int] = {}
@@ -672,6 +775,9 @@ def check(ctx: Ctx, col: Collector, tier: str) -> None:
                         col.bad("C01.TERM", key, repo.loc(rel, n), f"`{ast.unparse(n)[:70]}`", f"{fi.qualname} calls itself with arguments that are not sub-terms of its parameters (unbounded recursion)")
     if nt < 5:
         raise AnalysisError("loops / recursion sites not found")
+    from .shared import share
+    share(ctx, col, "C03", {"C03.MOVE"}, "the re-export test has side effects on the dictionary the re-export phase iterates: members of classes must bypass it (RuntimeError otherwise)",
+          key_filter=lambda o: "member-emission-bypasses-move" in o.key)
     col.assume("termination and exception freedom inside mypy and griffe are assumed; resource exhaustion is out of scope")
     col.assume("the model object graph built by the visitor is acyclic (class lookup for inlined bases follows superclass names of a finite class table)")
 
@@ -813,9 +919,10 @@ IDENTIFIER_ONLY_WRITES = {
 }
 
 # Silenced diagnostics (`# type: ignore[code]` with a code that means a failing statement), each with its reason.
-SILENCED = {
-    (VISITOR, f"{VCLS}.mypy_type_to_abstract_type", "union-attr"):
-        "library: mypy sets missing_import_name whenever it creates an AnyType of kind from_unimported_type (semanal.add_unknown_imported_symbol, typeanal copies it)",
+SILENCED: dict[tuple[str, str, str], str] = {
+    # (the reason once recorded for `mypy_type.missing_import_name.split(...)  # type: ignore[union-attr]` - "mypy sets missing_import_name whenever it
+    #  creates an AnyType of kind from_unimported_type" - was refuted by `Handle: Any = object; def close(handle: Handle)`; mypy/types.py only asserts
+    #  the converse)
 }
 
 # Lengths that hold by an invariant established elsewhere.  (module, function, base expression) -> (length, invariant).
@@ -998,13 +1105,13 @@ def alias_expansion(repo, fi: FuncInfo, assign: ast.Assign, name: str) -> bool:
             and isinstance(v.args[0], ast.Name) and v.args[0].id == name):
         return False
     cur, prev = repo.parent(assign), assign
+    tests = []
     while cur is not None and cur is not fi.node:
         if isinstance(cur, ast.If) and any(prev is b for b in cur.body):
-            t = ast.unparse(cur.test)
-            if f"isinstance({name}," in t and "TypeAliasType" in t and f"not {name}.is_recursive" in t:
-                return True
+            tests.append(ast.unparse(cur.test))
         prev, cur = cur, repo.parent(cur)
-    return False
+    t = " and ".join(tests)
+    return f"isinstance({name}," in t and "TypeAliasType" in t and f"not {name}.is_recursive" in t
 
 
 def descends(repo, fi: FuncInfo, call: ast.Call, params: list[str]) -> str | None:
@@ -1019,6 +1126,11 @@ def descends(repo, fi: FuncInfo, call: ast.Call, params: list[str]) -> str | Non
                 e = e.value
                 steps += 1
             elif isinstance(e, ast.Call) and isinstance(e.func, ast.Name) and e.func.id in ("enumerate", "list", "tuple", "reversed", "sorted", "iter") and e.args:
+                e = e.args[0]
+            elif isinstance(e, ast.Call) and (getattr(e.func, "attr", None) or getattr(e.func, "id", None)) == "flatten_nested_unions" and e.args:
+                # mypy's flattening replaces union members that are aliases of unions by the members of their targets (one expansion per alias, a
+                # union cannot be a member of itself): the elements are components of the argument or of alias targets; aliases among them are
+                # expanded by this function only under `alias_expansion`'s guard
                 e = e.args[0]
             elif isinstance(e, ast.Call) and isinstance(e.func, ast.Name) and e.func.id == "getattr" and len(e.args) >= 2:
                 e = e.args[0]
